@@ -229,9 +229,10 @@ thread_local! {
 	static CONTEXT: std::cell::Cell<usize> = std::cell::Cell::new(0);
 }
 
-fn function(body: &str) -> String
+/// Place statements (tab-indented lines) inside a statement context.
+pub fn wrap_in_context(body: &str, context: usize) -> String
 {
-	let wrapped = match CONTEXT.with(|c| c.get())
+	match context
 	{
 		1 => format!("\tif 1i32 == 1i32\n\t{{\n{body}\t}}\n"),
 		2 => format!("\tif 1i32 == 2i32\n\t{{\n\t}}\n\telse\n\t{{\n{body}\t}}\n"),
@@ -240,7 +241,12 @@ fn function(body: &str) -> String
 		5 => format!("\tvar li: i32 = 0;\n\t{{\n\t\tif li == 1i32\n\t\t\tgoto l_done;\n\t\tli = li + 1i32;\n{body}\t\tloop;\n\t}}\n\tl_done:\n"),
 		6 => format!("\tgoto l_next;\n\tl_next:\n{body}"),
 		_ => body.to_string(),
-	};
+	}
+}
+
+fn function(body: &str) -> String
+{
+	let wrapped = wrap_in_context(body, CONTEXT.with(|c| c.get()));
 	format!("{PRELUDE}fn f()\n{{\n{}{wrapped}}}\n", locals())
 }
 
